@@ -24,7 +24,7 @@ RULE = ("site in {caltech, jpl, office001} x basic/real EVSEs x generated transf
         "climb order kind, which transformer saturates)")
 PROBES = ["climb", "within_1pct_of_transformer", "concentrated_phase_pair", "sim_world", "sim_columns_checked",
           "jpl_first_floor_saturated", "jpl_third_fourth_saturated", "pod_or_panel_binding", "evse_limited_climb", "int_dtype_probe", "json_restart", "multi_period_probe",
-          "multi_period_reported_feasible", "what_if_constraint_removed_on_own_copy", "schedule_over_1000_periods", "caltech_built_through_old_alias"]
+          "multi_period_reported_feasible", "what_if_constraint_removed_on_own_copy", "schedule_over_1000_periods", "caltech_built_through_old_alias", "schedule_as_dataframe"]
 FAULT_DIMENSION = "restart only (site network saved to JSON and loaded before probing); otherwise saturated-state distribution"
 REAL_VS_STUB = "real: caltech_acn / jpl_acn / office001_acn, Current algebra, ChargingNetwork.is_feasible, sorted algorithm + Simulator in the in-simulation layer"
 ASSUMPTIONS = ["external truth: which EVSEs sit behind which transformer (Caltech/Office001: all; JPL: AG-1F* vs AG-3F*/AG-4F*), "
@@ -240,7 +240,12 @@ def check(sc):
                     out.probe("schedule_over_1000_periods")
                 M = np.array([[cols[j][k] for j in pick] for k in range(len(vec))], dtype=float)
                 out.probe("multi_period_probe")
-                if bool(nw.is_feasible(M)):
+                as_df = sub(sc["seed"], "as_dataframe", c).random() < 0.3
+                if as_df:
+                    # the same schedule held in a pandas DataFrame (rows = stations in network order, default labels), the way it comes
+                    # out of a spreadsheet or of DataFrame arithmetic
+                    out.probe("schedule_as_dataframe")
+                if bool(nw.is_feasible(sut.pd.DataFrame(M) if as_df else M)):
                     out.probe("multi_period_reported_feasible")
                     first_pos = {}
                     for pos, j in enumerate(pick):
